@@ -28,7 +28,13 @@ void harness(void)
 #ifdef TJV_FIXED
   size = TJV_FIXED;
 #endif
+#ifdef TJV_ALIGN        /* the stream starts at a nondeterministic offset 0..3 inside its object: every pointer alignment */
+  unsigned aoff = nondet_uint(); __CPROVER_assume(aoff < 4);
+  uint8_t *dobj = malloc(size + 3); __CPROVER_assume(dobj);
+  uint8_t *data = dobj + aoff;
+#else
   uint8_t *data = malloc(size); __CPROVER_assume(data);
+#endif
   uint8_t dom = nondet_u8(); unsigned rounds = nondet_uint();
   tjw_size = size; tjw_dom = dom; tjw_rounds = rounds;
   M.l_ptr = data; M.l_len = size; M.l_dom = dom; M.l_rounds = rounds;
